@@ -214,5 +214,17 @@ class Engine(ExprMixin, StmtMixin, CallMixin, EngineBase):
 
     def function_info(self, qual):
         fdef, mod, src = self.find_def(qual)
+        # the loop structure of the function: which loop statements, in which order and nesting (the invariants of a
+        # contract are attached to loops by ordinal; a different structure means the proof has to be redone)
+        def shape(node, depth=0):
+            out = []
+            for ch in ast.iter_child_nodes(node):
+                if isinstance(ch, (ast.For, ast.While)):
+                    out.append('%s%d' % ('F' if isinstance(ch, ast.For) else 'W', depth))
+                    out += shape(ch, depth + 1)
+                else:
+                    out += shape(ch, depth)
+            return out
         return {'function': qual, 'file': 'src/zope/testrunner/%s.py' % mod, 'line': fdef.lineno,
-                'sha256': hashlib.sha256(src.encode()).hexdigest()}
+                'sha256': hashlib.sha256(src.encode()).hexdigest(), 'loops': ' '.join(shape(fdef)),
+                'params': [a.arg for a in fdef.args.args]}
